@@ -59,6 +59,26 @@ CHECKS = {
    text="The real watcher and watch sessions run under the real controller loop against a fake API server with a history of n events (symbolic keys, solver-chosen types): every Watch(rv) call either fails or streams the events newer than rv interleaved with Status / Bookmark frames, and may close before any event or after the burst, within a fault budget; retry timers fire as environment transitions; exactly one list is delivered. All interleavings of controller, watcher, sessions, streams and timers are explored (sleep sets + state cache). At quiescence every event of the history has been applied to the cache in history order (replays allowed, skips not) and published, every Watch call resumes at the list version or at an event version, and neither watcher nor controller has terminated.",
    note="Bounds: quick n<=2 events and <=1 fault (connect error or close at any position), thorough n<=3 and <=2 faults; the final Watch call is served without fault (otherwise the premise 'the server emits it' fails); EventBufsiz scaled to 3 (4) - no overflow occurs within the bound. Consumer/producer speed ratios = all interleavings.",
    ref="DESIGN.md §4 C04"),
+ "C05": dict(
+   text="Real publisher.run / _subscription.run (and clones of clones) below a fake root subscription: the environment publishes opaque events and attaches subscribers and clones at solver-chosen points of the stream (optionally at a quiescent moment), in every order up to K actions; all interleavings explored. At quiescence z3/the engine show every subscriber received a contiguous suffix of the published sequence, in order, without duplicate, containing at least every event published after its Subscribe returned (exactly those when it subscribed at a quiescent moment). The cache-not-older clause is asserted in the controller harness (send happens after the cache update).",
+   note="Bounds: quick K<=5 actions, clone depth <=3; thorough K<=6. Backlog stays below the real EventBufsiz (100). Map iteration order of the subscription set is insertion order (order of sends to different subscribers is not observable by them).",
+   ref="DESIGN.md §4 C05"),
+ "C10": dict(
+   text="Real publisher / subscription / filtered clone / filtered subscription / monitor with one consumer that never reads and one healthy consumer that keeps its backlog below the buffer, for streams of 0..2B+1 events with EventBufsiz scaled to B; all interleavings explored. The engine shows no stuck state (the stream is always accepted), the healthy consumer receives all events in order, the parent cache holds all objects, and what the stalled consumer later drains is an in-order subsequence of at least min(m,B) events.",
+   note="Bounds: B=2 (thorough 3), stream <=2B+1, four placements of the stalled consumer (sibling subscriber, subscriber of a clone, subscriber of a filtered clone, filtered subscription next to a monitor). The real constant 100 is outside the claim (the code is parametric in it; scaling is recorded in the evidence).",
+   ref="DESIGN.md §4 C10"),
+ "C11": dict(
+   text="Trees of real publisher / subscription / filtered subscription / clone / filtered clone / monitor nodes below a fake root, shape chosen by the solver; one node (or the root's parent) is closed before any event, mid-stream or at a quiescent point; all interleavings explored. At quiescence every node of the closed subtree is Done with its Events() closed, every other node is not Done and receives a subsequent event.",
+   note="Bounds: quick all single-node shapes (mid-stream included) plus all two-sibling shapes; thorough adds two-level chains (depth 3). Deeper trees do not finish (see DESIGN.md: state explosion of shutdown cascades).",
+   ref="DESIGN.md §4 C11"),
+ "C12": dict(
+   text="Termination is decided per component group with one oracle (no stuck state, Done closes, every library goroutine exits, API calls return a result or ErrNotRunning): real watcher+sessions with resets and shutdown arriving while Watch() is connecting/connected (fake client blocks until cancelled: exactly the property's proviso); real cache actor with calls in flight; real publisher with Subscribe/Clone/SubscribeWithFilter racing with shutdown; real controller loop with Close, concurrent Close, and list error at every workload point; real lister+ticker at every point of the list/tick cycle. All interleavings explored in each group.",
+   note="The full composition below Builder.Create() does not finish even for the empty workload (>1.7M paths in 300 s), so the claim is compositional: each group with fakes honouring the interfaces between them; cross-group cascades (controller waiting for cache/watcher/lister Done) are covered by the controller group with fakes that stop on shutdown. Context cancellation of the root is covered for cache and watcher groups.",
+   ref="DESIGN.md §4 C12"),
+ "C15": dict(
+   text="The real cache actor with a writer moving through distinguishable complete states via sync/refilter and two concurrent readers (List, Get), all interleavings explored: every List equals exactly one of the states (never half-applied), is not older than a write the reader already knew complete, successive reads never go backwards, mutating the returned slice affects nobody. The engine's vector-clock check reports any access to cache state that is not ordered by channel operations (data race) as a violation.",
+   note="Bounds: quick 2 writes, 2 readers x 2 reads; thorough 3 writes. Race detection covers the explored schedules and the Go memory model restricted to channel/goroutine-start/close ordering; go test -race is a different technique and not used.",
+   ref="DESIGN.md §4 C15"),
 }
 NOT_APPLICABLE = {}
 PENDING = "check under construction in this session: harness not yet registered (no claim is made)"
